@@ -46,7 +46,10 @@ def main():
     def add(prop, rule, detail):
         mon.append(dict(prop=prop, rule=rule, detail=detail[:500]))
 
-    n, conc = case['n'], case['conc']
+    n, conc_arg = case['n'], case['conc']
+    # `concurrency=None` = the documented default: the number of CPUs for the process executor, min(32, CPUs + 4) for
+    # the thread executor; the capacity is twice that
+    conc = conc_arg if conc_arg is not None else (os.cpu_count() if case['executor'] == 'process' else min(32, os.cpu_count() + 4))
     cap = 2 * conc
     fails = set(case['fails'])
     stats = dict(max_ahead=0, max_running=0, pids=0, rounds=0)
@@ -71,7 +74,7 @@ def main():
                                             f'{ahead} ahead > capacity+3 = {cap + 3} (concurrency {conc})')
                 yield i
 
-        s = Stream(source()).parmap(W.work, executor=case['executor'], concurrency=conc, return_x=case['rx'],
+        s = Stream(source()).parmap(W.work, executor=case['executor'], concurrency=conc_arg, return_x=case['rx'],
                                     return_exceptions=case['rexc'], lats=case['lats'], fails=sorted(fails))
         out = []
         raised = None
@@ -86,6 +89,8 @@ def main():
                     break
                 handed[0] += 1
                 out.append(y)
+                if len(out) == 1 and case.get('pause'):
+                    time.sleep(case['pause'])     # a consumer that stalls: the feeder runs ahead as far as it is allowed to
         except BaseException as e:  # noqa
             # keep no reference to the exception object: its traceback holds the pipeline's frames (and with them
             # the pool's Process objects and their queues) alive
